@@ -192,19 +192,24 @@ def evaluate(case):
                 keys = [k for k in thr if k != 'min_n_cycles']
                 if len(axes) != len(keys) + 1:
                     return VIOL(dict(sgn, kind='n-panels'), 'expected %d parameter panels, found %d' % (len(keys), len(axes) - 1))
-                # which parameter a panel shows is read from its y-label ("Amp fraction\nthreshold=0.10")
+                # which parameter a panel shows is decided from its data: the plotted values must be the values of exactly the
+                # column it claims (label texts are not part of the property and are not compared)
+                cols = [k.replace('_threshold', '') for k in keys]
                 shown = []
                 for ax in axes[1:]:
-                    lab = ax.get_ylabel().split('\n')
-                    col = lab[0].strip().lower().replace(' ', '_')
-                    shown.append(col)
-                    k = col + '_threshold'
-                    if k not in thr:
-                        return VIOL(dict(sgn, kind='panel-label'), 'panel labelled %r is not one of the thresholded parameters' % lab[0])
-                    if len(lab) > 1 and lab[1].strip() != 'threshold=%.2f' % thr[k]:
-                        return VIOL(dict(sgn, kind='threshold-label', col=col), 'panel %s is labelled %r, the given threshold is %r' % (col, lab[1], thr[k]))
-                if sorted(shown) != sorted(k.replace('_threshold', '') for k in keys):
-                    return VIOL(dict(sgn, kind='panel-set'), 'panels %s do not show each thresholded parameter once' % shown)
+                    ys = np.asarray(ax.lines[0].get_ydata(), dtype=float)
+                    ys = ys if interp else ys[0::2]
+                    cand = []
+                    for c in cols:
+                        vals = set(np.round(df[c].to_numpy()[~np.isnan(df[c].to_numpy())], 12).tolist())
+                        if all((v != v) or (round(float(v), 12) in vals) for v in ys):
+                            cand.append(c)
+                    lab = ax.get_ylabel().split('\n')[0].strip().lower().replace(' ', '_')
+                    pick = lab if lab in cand else (cand[0] if cand else None)
+                    if pick is None:
+                        return VIOL(dict(sgn, kind='panel-y'), 'a parameter panel shows values that belong to no thresholded column',
+                                    observed=ys.tolist())
+                    shown.append(pick)
                 for ax, col in zip(axes[1:], shown):
                     k = col + '_threshold'
                     data, thl = ax.lines[0], ax.lines[1]
